@@ -1,9 +1,10 @@
 """C02 — a device tree composes its leaves row-wise (cost, gradient, bounds, constraints)."""
-import json
+import os, json
 from fractions import Fraction
 from .. import common as C, gen, build
 from .. import gen_treex as X
 from ..check import Prop, Op
+from ..gen_sets import FLOW_NAMES
 
 THEOREMS = ['blocks_offsets', 'blocks_rows_sum', 'cost_eq_sum_blocks', 'deriv_block', 'bounds_block', 'row_owner',
             'row_owner_unique', 'cons_sat_iff', 'lift_jac_support', 'lift_isMGrad', 'unflat_flat', 'flat_unflat']
@@ -57,7 +58,9 @@ class C02(Prop):
   bridge_sets = ['DK.BridgeSets.DeviceSet_shapes', 'DK.BridgeSets.DeviceSet_shape', 'DK.BridgeSets.DeviceSet_partition',
                  'DK.BridgeSets.DeviceSet_slices', 'DK.BridgeSets.DeviceSet_costv', 'DK.BridgeSets.DeviceSet_cost',
                  'DK.BridgeSets.DeviceSet_deriv', 'DK.BridgeSets.DeviceSet_hess', 'DK.BridgeSets.DeviceSet_bounds',
-                 'DK.BridgeSets.DeviceSet_project', 'DK.BridgeSets.DeviceSet_constraints', 'DK.BridgeSets.DeviceSet_constraints_node']      # T1s: set-level glue (vk/translate_sets.py, DK/Lemmas/BridgeSets/*.lean)
+                 'DK.BridgeSets.DeviceSet_project', 'DK.BridgeSets.DeviceSet_constraints', 'DK.BridgeSets.DeviceSet_constraints_node',
+                 'DK.BridgeSets.MFDeviceSet_cost', 'DK.BridgeSets.MFDeviceSet_deriv', 'DK.BridgeSets.MFDeviceSet_hess',
+                 'DK.BridgeSets.MFDeviceSet_init_bounds', 'DK.BridgeSets.MFDeviceSet_constraints']      # T1s: set-level glue (vk/translate_sets.py, DK/Lemmas/BridgeSets/*.lean)
   bridge = bridge_sets
   theorems = {'DK.Props.C02': ['DK.C02.' + t for t in THEOREMS],
               'DK.Props.TreeGrad': ['DK.TreeGrad.tree_isMGrad', 'DK.TreeGrad.tree_partial', 'DK.TreeGrad.ofLeaf_isGrad', 'DK.TreeGrad.ofMF_isGrad', 'DK.TreeGrad.shipped_tree_isMGrad']}
@@ -65,15 +68,17 @@ class C02(Prop):
           'modelled leaves of every class, MFDeviceSet / TwoRatioMFDeviceSet adaptors as children, horizon 1..6 (..10 thorough); '
           'in-bounds flows given flat and matrix-shaped; prices scalar / per-slot vector / full matrix with pairwise different rows; '
           'non-trivial: depth >= 2 and some node whose children have different row counts')
-  sizes = {'quick': 400, 'thorough': 3000}
+  sizes = {'quick': 300, 'thorough': 2500}
   assumptions = ['oracle: recomposition from the leaves\' own public API (cost, deriv, bounds, constraints) with offsets summed from the '
                  'leaves\' shapes; constraint lists compared as multisets (order of the list is not part of the property)',
                  'oracle: every tree constraint Jacobian is compared with central finite differences (h=1e-3) of its own fun along two directions at the permutation flow',
                  'oracle, metamorphic: the same logical flow (C / Fortran / transpose-view / strided / flat / strided-flat / integer-typed) and price (python/numpy scalar, (n,), (1,n) row, strided, matrix layouts, integer-typed) must give the same cost, deriv, hess and constraint values; caller arrays unchanged',
+                 'leaves without a Lean model (WindowDevice; ADevice whose user constraint does not flatten its argument) appear in oracle-only trees (8 % / 4 %): same cost, deriv, Hessian shape and constraint values alone (on the flow vector) and inside the tree; adaptors with 5-7 conduits in 10 % of the trees that have one',
                  'reread family (15 % of the cases, oracle only): the whole tree is read once, then leaves are re-parameterised through public setters (bounds / cbounds / a curve parameter; cbounds also on the device behind an adaptor), then the recomposition is repeated',
                  'T2 compares constraints as sorted projections (type/has-jac code, value), (code, jac.D), (code, value + jac.D) at the case flow']
 
   reread_rate = 0.15
+  ucraw_rate = float(os.environ.get('VERIF_C02_UCRAW', '0.04'))
 
   def __init__(self):
     self.stats = {'depth': {}, 'price': {}, 'rows': {}, 'n': {}, 'multirow_children': 0, 'mf': 0, 'sub': 0, 'tworatio': 0, 'cases': 0}
@@ -83,16 +88,44 @@ class C02(Prop):
     out = []
     for _ in range(count):
       t, n = X.gen_shape_tree(rng, tier)
+      extra = {}
+      leaves = [b for b in gen.tree_leaves(t) if b['k'] == 'leaf']
+      mfs = [b for b in gen.tree_leaves(t) if b['k'] == 'mf']
+      if mfs and rng.random() < 0.10:
+        # an adaptor with 5-7 conduits now and then (the random trees draw at most 3)
+        b = rng.choice(mfs); b['flows'] = list(FLOW_NAMES[:rng.randint(5, 7)]); b['ratios'] = None; b.pop('ctype', None)
+      q = rng.random()
+      if leaves and q < 0.08:
+        # WindowDevice leaves: no Lean model -> oracle-only tree (alone vs in the tree)
+        for b in rng.sample(leaves, min(len(leaves), rng.choice([1, 1, 2]))):
+          b.update(X.window_leaf(rng, b['id'], n))
+        extra = {'no_model': 'WindowDevice'}
+      elif leaves and n >= 2 and q < 0.08 + self.ucraw_rate:
+        # an ADevice whose user constraint does not flatten its argument: oracle-only (alone vs in the tree)
+        b = rng.choice(leaves); b.update(X.raw_ucons_leaf(rng, b['id'], n))
+        extra = {'no_model': 'raw user constraint'}
       R = gen.tree_rows(t)
       case = {'tree': t, 'n': n, 'S': gen.tree_flow(rng, t, n), 'S0': gen.tree_flow(rng, t, n, 'mixed'),
               'P': X.gen_prices(rng, R, n), 'D': X.gen_dir(rng, R, n),
               '_forms': {'S': rng.choice(X.MAT_FORMS), 'flat': rng.choice(['flat', 'flat-strided']), 'P': rng.choice(X.MAT_FORMS)}}
+      case.update(extra)
       if rng.random() < self.reread_rate:
         rr = gen_reread(rng, t, n)
         if rr:
           case['reread'] = rr
       out.append(case)
     return out
+
+  def corpus(self):
+    """witness of the listed finding `user-constraint-shape`: DeviceSet(root, [ADevice a with the user constraint x[0] - 1/2 >= 0, Device b]), n = 2."""
+    u = {'type': 'ineq', 'raw': 'first', 's': 0, 'e': 1, 'w': '1', 'c': '-1/2', 'n': 2, 'jac': True}
+    a = {'k': 'leaf', 'id': 'a', 'dev': {'cls': 'ADevice', 'n': 2, 'lb': ['0', '0'], 'hb': ['1', '1'], 'cbs': [], 'prm': {'f': {'k': 'null'}}, 'raw_ucons': [u],
+                                         '_py': {'bform': 'table', 'cform': None}}}
+    b = {'k': 'leaf', 'id': 'b', 'dev': {'cls': 'Device', 'n': 2, 'lb': ['0', '0'], 'hb': ['1', '1'], 'cbs': [], 'prm': {}, '_py': {'bform': 'table', 'cform': None}}}
+    if not self.ucraw_rate:
+      return []
+    return [{'tree': {'k': 'node', 'id': 'root', 'sb': None, 'ch': [a, b], 'sub': False}, 'n': 2, 'S': [['1', '0'], ['0', '0']], 'S0': [['0', '0'], ['0', '0']],
+             'P': '0', 'D': [['1', '1/2'], ['-1', '1/4']], 'no_model': 'raw user constraint'}]
 
   def _note(self, case):
     t = case['tree']; st = self.stats
@@ -111,6 +144,9 @@ class C02(Prop):
   # ------------------------------------------------------------------ T2
   def ops(self, case):
     self._note(case)
+    if case.get('no_model'):
+      self.stats['oracle_only_' + case['no_model'].split()[0]] = self.stats.get('oracle_only_' + case['no_model'].split()[0], 0) + 1
+      return []            # a leaf without a Lean model: the oracle compares it alone and inside the tree
     t, n = case['tree'], case['n']
     dev = build.build_tree(t)
     P = build.price(case['P'])
@@ -166,7 +202,7 @@ class C02(Prop):
   # ------------------------------------------------------------------ oracle (implementation only)
   def oracle(self, case):
     t = case['tree']
-    dev = build.build_tree(t)
+    dev = X.build_tree_x(t)
     fails = self._compare(dev, case, '', '')
     if case.get('reread') and not fails:
       fails += self._reread(case)
@@ -177,7 +213,7 @@ class C02(Prop):
     two leaves through their public setters, then the tree must still agree with its leaves."""
     n_ = X.np()
     t, n = case['tree'], case['n']
-    dev = build.build_tree(t)
+    dev = X.build_tree_x(t)
     blocks = X.impl_blocks(dev)
     R = sum(b[1] for b in blocks)
     S = n_.array([[float(r + 1 + (R + 1)*i) for i in range(n)] for r in range(R)])
@@ -228,6 +264,13 @@ class C02(Prop):
     if tuple(int(x) for x in dev.shape) != (R, n):
       fail('shape', 'shape is %s but the leaves own %d rows of %d slots' % (tuple(dev.shape), R, n))
       return fails
+    for off, k, blk, path in blocks:
+      if X.is_adaptor(blk) and len(blk.to_dict()['flows']) != k:
+        fail('shape', 'the adaptor %s was given %d conduits %s but owns %d rows' % ('.'.join(path), len(blk.to_dict()['flows']), list(blk.to_dict()['flows']), k))
+        return fails
+    if gen.tree_rows(t) != R:
+      fail('shape', 'the tree was built from %d atomic leaves / conduits but has %d rows' % (gen.tree_rows(t), R))
+      return fails
     # permutation-detecting flow, integer-valued: cell (r, i) holds (r+1) + (R+1)*i  (all cells different, all >= 1)
     Sperm = n_.array([[float(r + 1 + (R + 1)*i) for i in range(n)] for r in range(R)])
     SpermI = Sperm.astype(int)      # the same flow handed over as an INTEGER-typed array (callers do: np.arange, literals)
@@ -247,7 +290,22 @@ class C02(Prop):
         parts = [float(blk.cost(S[off:off + k, :], Pf[off:off + k, :])) for off, k, blk, _ in blocks]
         dparts = [n_.array(blk.deriv(S[off:off + k, :], Pf[off:off + k, :]), dtype=float).reshape(k, n) for off, k, blk, _ in blocks]
       except Exception as e:
-        fail('leaf-raises', 'a leaf cost/deriv raised %s: %s on its own rows; flow %s, %s' % (type(e).__name__, str(e)[:120], sname, pname))
+        culprit = None
+        for off, k, blk, path in blocks:
+          if k == 1 and not X.is_adaptor(blk):
+            try:
+              blk.cost(S[off], Pf[off]); blk.deriv(S[off], Pf[off])       # alone, on its flow vector: fine ...
+            except Exception:
+              continue
+            try:
+              blk.cost(S[off:off + 1, :], Pf[off:off + 1, :]); blk.deriv(S[off:off + 1, :], Pf[off:off + 1, :])
+            except Exception as e2:                                          # ... but not on the (1, n) row a set hands it
+              culprit = (path, blk, e2); break
+        if culprit:
+          fail('leaf-alone', 'leaf %s (%s) evaluates its cost/deriv alone on the vector S[%d] but raises %s: %s on the (1, n) row slice a DeviceSet passes it; flow %s, %s'
+               % ('.'.join(culprit[0]), type(culprit[1]).__name__, off, type(culprit[2]).__name__, str(culprit[2])[:120], sname, pname), type(culprit[1]).__name__)
+        else:
+          fail('leaf-raises', 'a leaf cost/deriv raised %s: %s on its own rows; flow %s, %s' % (type(e).__name__, str(e)[:120], sname, pname))
         return fails
       exp = sum(parts); scale = max(1.0, sum(abs(x) for x in parts if x == x))
       dexp = n_.vstack(dparts)
@@ -277,6 +335,19 @@ class C02(Prop):
         if k == 1 and not X.is_adaptor(blk):
           a = float(blk.cost(S[off], Pf[off])); b = parts[[x[0] for x in blocks].index(off)]
           da = n_.array(blk.deriv(S[off], Pf[off]), dtype=float).reshape(-1)
+          try:
+            ha = n_.array(blk.hess(S[off], Pf[off]), dtype=float)
+          except Exception:
+            ha = None
+          if ha is not None:
+            try:
+              hb_ = n_.array(blk.hess(S[off:off + 1, :], Pf[off:off + 1, :]), dtype=float)
+              if hb_.shape != ha.shape or not close(hb_, ha):
+                fail('leaf-alone', 'leaf %s alone on the vector S[%d] has a Hessian of shape %s, on the (1, n) row slice a set passes %s%s; flow %s'
+                     % ('.'.join(path), off, ha.shape, hb_.shape, '' if hb_.shape != ha.shape else ' with other values', sname), type(blk).__name__)
+            except Exception as e:
+              fail('leaf-alone', 'leaf %s: hess works alone on the vector S[%d] but raises %s: %s on the (1, n) row slice a set passes; flow %s'
+                   % ('.'.join(path), off, type(e).__name__, str(e)[:100], sname), type(blk).__name__)
           if not close(a, b, max(1.0, abs(b))) or not close(da, dexp[off]):
             fail('leaf-alone', 'leaf %s alone on the vector S[%d] gives cost %.12g / deriv %s, inside the tree (1,n slice) %.12g / %s; flow %s'
                  % ('.'.join(path), off, a, da.tolist(), b, dexp[off].tolist(), sname), type(blk).__name__)
@@ -377,6 +448,19 @@ class C02(Prop):
     except Exception as e:
       fail('constraint-raises', 'evaluating the tree constraints on another memory layout of the flow "%s" raised %s: %s' % (pname0, type(e).__name__, str(e)[:160]))
       return fails
+    # user constraints of an ADevice that see another shape inside a set than alone (flow vector vs raw (1, n) row slice)
+    culprits = []
+    for off, k, blk, path in blocks:
+      if k == 1 and isinstance(blk, dk.ADevice):
+        cs_ = blk.constraints
+        for ci in range(len(cs_) - len(blk.to_dict().get('constraints') or []), len(cs_)):
+          try:
+            va = scalar(cs_[ci]['fun'](Sperm[off]))
+            vr = n_.array(cs_[ci]['fun'](Sperm[off:off + 1, :]), dtype=float)
+          except Exception:
+            continue
+          if vr.size != 1 or not close(float(vr.reshape(-1)[0]), va):
+            culprits.append(('.'.join(path), ci, va, vr))
     # ---- each re-wrapped Jacobian is the gradient of the re-wrapped function: directional finite differences of `fun`
     # at the permutation flow (all entries >= 1: away from the kinks at zero), then per cell to name the wrong entries
     dirs = [n_.array([[(((r*n + i)*37) % 11 - 5)/4.0 for i in range(n)] for r in range(R)])]
@@ -398,6 +482,12 @@ class C02(Prop):
                 Em = n_.zeros((R, n)); Em[r, i] = 1.0
                 fd[r, i] = (scalar(c['fun']((Sperm + h*Em).reshape(-1))) - scalar(c['fun']((Sperm - h*Em).reshape(-1))))/(2*h)
             bad = n_.argwhere(n_.abs(fd - J) > 1e-6*n_.maximum(1.0, n_.abs(fd)))
+            cul = [x for x in culprits if x[3].size == 1 and close(float(x[3].reshape(-1)[0]), T[ti][1][0])]
+            if cul:
+              fail('user-constraint-shape', 'tree constraint #%d is user constraint #%d of the ADevice %s: alone it receives the flow vector (n,) and gives %s, inside the set it receives the raw '
+                   '(1, n) row slice and gives %s (its Jacobian %s is then not the gradient of what the tree evaluates: finite differences %s); flow "%s"'
+                   % (ti, cul[0][1], cul[0][0], cul[0][2], cul[0][3].tolist(), J.round(9).tolist(), fd.round(6).tolist(), probes[0][0]), 'ADevice')
+              return fails[:3]
             fail('constraint-jac', 'tree constraint #%d (%s, value %s at the flow "%s"): its Jacobian is not the gradient of its fun: jac=%s but finite differences of '
                  'fun give %s; wrong (row, slot) cells: %s' % (ti, c['type'], T[ti][1][0], probes[0][0], J.round(9).tolist(), fd.round(6).tolist(), bad.tolist()[:8]))
             break
@@ -428,9 +518,22 @@ class C02(Prop):
           if pos < len(T) and what == 'leaf':
             near = '; the tree constraint at the same list position is (%s, %s%s)' % (T[pos][0], T[pos][1], '' if T[pos][2] is None or jac is None else
                    ', jac rows non-zero: %s vs leaf rows %d..%d' % (sorted(set(n_.nonzero(T[pos][2])[0].tolist())), b[0], b[0] + b[1] - 1))
-          fail('constraint', 'constraint #%d of %s%s (%s) has values %s on exactly its own rows (flows: %s%s) and %s, but no tree constraint has these values with the '
+          kind_, cls_ = 'constraint', type(b[2]).__name__
+          if what == 'leaf' and isinstance(b[2], dk.ADevice):
+            nuser = len(b[2].to_dict().get('constraints') or [])
+            cc = b[2].constraints[ci]
+            if ci >= len(b[2].constraints) - nuser:
+              try:
+                vrow = n_.array(cc['fun'](flows[0][b[0]:b[0] + 1, :]), dtype=float)
+              except Exception as e:
+                vrow = 'raises %s' % type(e).__name__
+              if isinstance(vrow, str) or vrow.size != 1 or not close(float(vrow.reshape(-1)[0]), vals[0]):
+                kind_, cls_ = 'user-constraint-shape', 'ADevice'
+                near = ('; it is a USER constraint of the ADevice: alone it receives the flow vector (n,) and gives %s, inside a DeviceSet it receives the raw (1, n) row slice and gives %s'
+                        % (vals[0], vrow if isinstance(vrow, str) else vrow.tolist()))
+          fail(kind_, 'constraint #%d of %s%s (%s) has values %s on exactly its own rows (flows: %s%s) and %s, but no tree constraint has these values with the '
                'zero-padded Jacobian%s' % (ci, 'the device wrapped by ' if what == 'wrapped' else '', rows_of(b), ty, vals, probes[0][0], '; case S' if len(flows) > 1 else '',
-                                           'a Jacobian' if jac is not None else 'no Jacobian', near), type(b[2]).__name__)
+                                           'a Jacobian' if jac is not None else 'no Jacobian', near), cls_)
           return None
         used[hit] = True
       return used
@@ -439,11 +542,13 @@ class C02(Prop):
       E, W = [], []
       for b in blocks:
         off, k, blk, path = b
+        atom = k == 1 and not X.is_adaptor(blk)
+        own = (lambda S_: S_[off]) if atom else (lambda S_: S_[off:off + k, :])      # a leaf alone sees its flow VECTOR
         for ci, c in enumerate(blk.constraints):
-          vals = [scalar(c['fun'](S[off:off + k, :])) for S in flows]
+          vals = [scalar(c['fun'](own(S))) for S in flows]
           jac = None
           if 'jac' in c:
-            jac = n_.zeros((R, n)); jac[off:off + k, :] = n_.array(c['jac'](Sperm[off:off + k, :]), dtype=float).reshape(k, n)
+            jac = n_.zeros((R, n)); jac[off:off + k, :] = n_.array(c['jac'](own(Sperm)), dtype=float).reshape(k, n)
           E.append((c['type'], vals, jac, b, ci))
         if X.is_adaptor(blk):
           # the device behind an adaptor: its CURRENT constraints act on the sum of the conduits, Jacobian repeated per conduit row
